@@ -178,6 +178,99 @@ func runSockLegC02(c *Ctx) {
 		}
 	}
 	r.Count("real_socket_slow_deliveries", int64(slow))
+
+	// (d) the same pace on the in-memory transport, which answers a read
+	// that finds nothing inside the packet body with (0, io.EOF) - "nothing
+	// there at the moment", the situation Packet.ReadFrom handles by going
+	// on as long as the read timeout, restarted by every piece, has not
+	// run out. Header + four body pieces 400 ms apart, PacketReadTimeout 1 s.
+	// The pauses between the feeds are measured: a run in which one
+	// reached 800 ms says nothing and is repeated; a delivery that differs
+	// is repeated once and reported only if it differs again.
+	trickle := 0
+	for ri, resp := range resps {
+		if trickle >= 2 || ri%5 != 2 {
+			continue
+		}
+		body := resp.Bytes()
+		refOut, err := c02Deliver(c02Packets(body, nil, nil, false), "reader", nil)
+		if err != nil || refOut.watchdog || len(refOut.d.Errs) > 0 || len(refOut.d.Dumps) == 0 || len(body) < 8 {
+			continue
+		}
+		trickle++
+		r.Eval(1)
+		st := xport.Concat(c02Packets(body, nil, nil, false))
+		cs := sockCase{Leg: "C02", What: resp.Name + "/trickle-four-pieces-transient-eof-read-timeout-1s", Hex: hex.EncodeToString(body)}
+		bad, judged := 0, 0
+		var last delivered
+		for attempt := 0; attempt < 6 && judged < 2 && bad == judged; attempt++ {
+			k, err := newKit(4096, 1)
+			if err != nil {
+				r.Inconclusive("trickle delivery: %v", err)
+				break
+			}
+			k.tr.SoftEOF(8, int64(len(st)))
+			q := (len(st) - 8) / 4
+			paceOK := true
+			t0 := time.Now()
+			for i := 0; i < 4; i++ {
+				lo, hi := 8+i*q, 8+(i+1)*q
+				if i == 0 {
+					lo = 0
+				}
+				if i == 3 {
+					hi = len(st)
+				}
+				if i > 0 {
+					time.Sleep(400 * time.Millisecond)
+					if time.Since(t0) > 800*time.Millisecond {
+						paceOK = false
+					}
+					t0 = time.Now()
+				}
+				k.tr.Feed(st[lo:hi])
+			}
+			// the consumer takes packages until it has as many as the
+			// reference delivery or is given an error (bounded)
+			var got delivered
+			wctx, wcancel := context.WithTimeout(context.Background(), 15*time.Second)
+			for len(got.Dumps) < len(refOut.d.Dumps) && len(got.Errs) == 0 {
+				pkg, err := k.ch.NextPackage(wctx, true)
+				if err != nil {
+					got.Errs = append(got.Errs, err.Error())
+					break
+				}
+				got.Dumps = append(got.Dumps, canon.Dump(pkg))
+				got.Types = append(got.Types, fmt.Sprintf("%T", pkg))
+			}
+			wcancel()
+			if len(got.Errs) == 0 {
+				rest := drainChannel(k.ch, k.ctx)
+				got.Dumps = append(got.Dumps, rest.Dumps...)
+				got.Types = append(got.Types, rest.Types...)
+				got.Errs = append(got.Errs, rest.Errs...)
+			}
+			soft := k.tr.SoftReads()
+			k.teardown()
+			if !paceOK {
+				r.Count("trickle_runs_without_verdict", 1)
+				continue
+			}
+			judged++
+			r.Count("trickle_transient_eof_reads", soft)
+			last = got
+			if len(got.Errs) > 0 || !sameStrings(got.Dumps, refOut.d.Dumps) {
+				bad++
+			}
+		}
+		if judged > 0 {
+			r.Distinct("trickle|" + cs.What)
+			r.Count("trickle_deliveries_judged", int64(judged))
+		}
+		if judged >= 2 && bad == judged {
+			r.Violate("fragmentation/slow-pieces-with-transient-eof-within-the-read-timeout", fmt.Sprintf("response %s in one packet whose body arrives in four pieces 400 ms apart (no pause reaches PacketReadTimeout = 1 s, reads in between return (0, io.EOF)): packages %v errors %.300v, reference %v (twice in a row)", resp.Name, last.Types, last.Errs, refOut.d.Types), cs)
+		}
+	}
 }
 
 // runSockLegC01: framing of outgoing messages as seen by a server behind a socket.
